@@ -25,6 +25,9 @@ def cursor_saved_after_the_events_it_covers(w: World):
         check(saves[0].args[1] == em.cursor and em.cursor is not None or saves[0].args[1] == em.cursor, "the stored cursor is the one remembered")
     if stopped0:
         check(len(calls("_process_event")) == 0, "a stopped manager processes no provider event")
+        for c in provider_calls():
+            if c.method == "events" and len(c.result) > 0:
+                check(len(saves) == 0, "a stop while events remain unprocessed does not move the stored cursor")
 
 
 @lemma(props=["C14", "C07", "C15", "C06"], configs="sides", raises=["Exception"],
@@ -131,3 +134,103 @@ def event_update_records_the_event(w: World):
         check(e[side].exists in (EXISTS, LIKELY_TRASHED) or e[side].exists == CORRUPT, "an existing object is recorded as existing")
     if ev.exists is False:
         check(e[side].exists == TRASHED or (e[side].exists == CORRUPT and e[side]._saved_exists == TRASHED), "a deletion is recorded as a tombstone")
+
+
+@lemma(props=["C06"], configs="sides", raises=["Exception"])
+def first_init_restores_or_records_the_cursor(w: World):
+    """L6.4: the first intake step after a start: without a stored cursor the provider's current position is adopted and
+    persisted under the cursor tag (when it has one); with a stored cursor that position is handed to the provider; if the
+    provider rejects it (CloudCursorError) and no completed walk is on record, a full walk is requested before the error
+    propagates; nothing of this happens on later steps"""
+    em = w.event_manager(w.changed)
+    first = em._first_do
+    stored = em.cursor
+    nw0 = em.need_walk
+    try:
+        em._do_first_init()
+        raised = None
+    except BaseException as e:
+        raised = e
+    if not first:
+        check(raised is None and len(effect_names()) == 0 and em.cursor == stored and em.need_walk == nw0,
+              "not the first step: nothing happens")
+    elif stored is None:
+        ups = calls("storage_update_data")
+        if raised is None:
+            check(em._first_do is False, "the first step is done")
+            if em.cursor is not None:
+                check(len(ups) == 1 and ups[0].args[0] == em._cursor_tag and ups[0].args[1] == em.cursor,
+                      "the adopted position is persisted under the cursor tag")
+            else:
+                check(len(ups) == 0, "no position: nothing to persist")
+    else:
+        sets = calls("set_current_cursor")
+        check(len(calls("storage_update_data")) == 0, "a stored cursor is not rewritten")
+        check(em.cursor == stored, "and stays the one remembered")
+        if raised is None:
+            check(em._first_do is False, "the first step is done")
+        elif isinstance(raised, ex.CloudCursorError):
+            gets = calls("storage_get_data")
+            check(len(gets) == 1 and gets[0].args[0] == em._walk_tag, "a rejected cursor: the walk record is consulted")
+            check(em._first_do is True, "and the first step is not counted as done")
+            if gets[0].result is None:
+                check(em.need_walk is True, "no completed walk on record: a full walk is requested")
+            else:
+                check(em.need_walk == nw0, "a completed walk on record: the need is unchanged")
+
+
+@lemma(props=["C06", "C14"], configs="sides", raises=["Exception"],
+       stubs={"cloudsync.event:EventManager._process_event": {"results": ["None"], "havoc": False}})
+def walk_if_needed_records_completion_last(w: World):
+    """L6.5: a full walk happens exactly when one is needed and the root id is known; every walked object is processed
+    as a walk event; the completion record (walk tag) is written only after the walk, as the last effect, and only then
+    is the need cleared; a stop in the middle records nothing (the walk is repeated after a restart)"""
+    em = w.event_manager(w.changed)
+    need = em.need_walk
+    root = em._root_oid
+    em._do_walk_if_needed()
+    names = effect_names()
+    ups = calls("storage_update_data")
+    if not (need and truthy(root)):
+        check(len(names) == 0 and em.need_walk == need, "no walk needed or no root: nothing happens")
+    else:
+        for c in calls("_process_event"):
+            check(c.kw_from_walk is True, "walked objects are processed as walk events")
+        if len(ups) > 0:
+            check(len(ups) == 1 and names[len(names) - 1] == "storage_update_data" and ups[0].args[0] == em._walk_tag,
+                  "the completion record is the last effect, under the walk tag")
+            check(em.need_walk is False, "and only then the need is cleared")
+        else:
+            check(em.need_walk == need, "an interrupted walk leaves the need in place")
+        for c in provider_calls():
+            if c.method == "walk_oid" and c.ok and len(c.result) > 0 and em.stopped:
+                check(len(ups) == 0, "a stop while objects remain to be walked records nothing")
+
+
+@lemma(props=["C06"], configs="sides", raises=["Exception"])
+def validate_root_loads_cursor_and_walk_need(w: World):
+    """L6.6: the stored cursor is read from storage under the tag of this side's root exactly once (when the root is first
+    validated) and becomes the position remembered; a full walk is needed exactly when there is no stored cursor or no
+    completed-walk record for this root; a half-specified root validates nothing and reads nothing"""
+    em = w.event_manager(w.changed)
+    validated0 = em._root_validated
+    nw0 = em.need_walk
+    c0 = em.cursor
+    r = em._validate_root()
+    gets = calls("storage_get_data")
+    if validated0:
+        check(r is True and len(gets) == 0 and em.cursor == c0 and em.need_walk == nw0, "already validated: nothing is read again")
+    elif r:
+        check(len(gets) >= 1 and gets[0].args[0] == em._cursor_tag, "the cursor is read under this root's cursor tag")
+        check(em.cursor == gets[0].result, "and becomes the position remembered")
+        if truthy(em._root_path):
+            check(em._walk_tag != em._cursor_tag, "walk record and cursor live under different tags")
+            if em.cursor is None:
+                check(em.need_walk is True, "no stored cursor: a full walk is needed")
+            else:
+                check(len(gets) == 2 and gets[1].args[0] == em._walk_tag, "the walk record is read under the walk tag")
+                check(em.need_walk == (gets[1].result is None), "a walk is needed exactly when none was completed")
+        else:
+            check(em.need_walk == nw0, "no root: the walk need is left alone")
+    else:
+        check(len(gets) == 0 and em.cursor == c0 and em.need_walk == nw0, "a half-specified root reads nothing")
